@@ -21,9 +21,11 @@ Local Open Scope Z_scope.
          on two shards (C03_ripe_cycle_gives_clean_plan);
      (5) a settled placement is a fixpoint of the cycle and of the closed loop (C03_settled_is_fixpoint,
          C03_settled_world_unchanged).
-   Not proved is the glue that turns (1)-(5) into a bound: that relief (shards above a threshold) and consolidation
-   (idle time-out) stop starting new moves - which depends on the sizes of the workload, the "enough allowed shards" of
-   the statement - and the arithmetic of room after a scale-up.  That composition is validated in lock step against the
+   Composed so far: (2)+(3)+(4) in the closed loop - a ripe world with no relief to do and the idle time-out off is a clean
+   world after one fault-free cycle (C03_ripe_world_becomes_clean), the sidecars following the plan exactly
+   (C03_world_follows_plan).  Not proved is the remaining glue that turns this into a bound from EVERY world: that relief
+   (shards above a threshold) and consolidation (idle time-out) stop starting new moves - which depends on the sizes of
+   the workload, the "enough allowed shards" of the statement - and the arithmetic of room after a scale-up.  That composition is validated in lock step against the
    real closed loop (engine `loop`), whose end states are checked for convergence and stability. *)
 
 (* "Whenever all shards are in sync and an eligible unscraped target cannot be placed, the requested shard count
@@ -142,6 +144,37 @@ Theorem C03_ripe_cycle_gives_clean_plan : forall o i s,
   clean (i_active i) (st_p3 (run_stages o i s)).
 Proof. exact ripe_cycle_gives_clean_plan. Qed.
 Print Assumptions C03_ripe_cycle_gives_clean_plan.
+
+(* ... in the closed loop (World model): after a fault-free cycle every sidecar holds exactly what the final plan has for
+   its shard - same targets, same states - whether or not an update was sent (needUpdate) *)
+Theorem C03_world_follows_plan : forall o tru w sch k h st,
+  wwf w -> (k < length (w_shards w))%nat ->
+  let i := cycle_input tru w no_faults in
+  let out := cycle o i sch in
+  o_skipped out = false -> o_divzero out = false ->
+  let s' := after_cycle_shard tru w no_faults k (nth k (w_shards w) dws) (nth k (o_posts out) None) in
+  (exists e, afind h (sc_status (ws_sc s')) = Some e /\ ss_state e = st) <->
+  (exists c, afind h (scr_of (nth_si (o_plan out) k)) = Some c /\ c_state c = st /\ is_active (i_active i) h = true).
+Proof. exact world_follows_plan. Qed.
+Print Assumptions C03_world_follows_plan.
+
+(* ... hence: a ripe world (every counter at three; idle time-out off; no relief to do) is a clean world after ONE
+   fault-free cycle, for every schedule: every target a sidecar holds is discovered, in normal state, and on no other
+   shard.  With C03_place_or_grow (what is not placed makes the replica grow) and C03_settled_world_unchanged (a settled
+   world stays) this is "reaches ... a state in which every ... target ... is scraped by exactly one shard in normal state,
+   no transfer is pending" for one round after the counters are ripe *)
+Theorem C03_ripe_world_becomes_clean : forall o tru w sch,
+  wwf w -> max_idle o = 0 -> NoDup (w_active w) ->
+  (forall k h e, (k < length (w_shards w))%nat -> afind h (sc_status (ws_sc (nth k (w_shards w) dws))) = Some e -> (3 <= ss_times e)%N) ->
+  let i := cycle_input tru w no_faults in
+  let out := cycle o i sch in
+  calm o (st_p1 (run_stages o i (sst_of sch))) -> o_skipped out = false -> o_divzero out = false ->
+  let status' := fun k => sc_status (ws_sc (after_cycle_shard tru w no_faults k (nth k (w_shards w) dws) (nth k (o_posts out) None))) in
+  forall k h e, (k < length (w_shards w))%nat -> afind h (status' k) = Some e ->
+    ss_state e = Normal /\ In h (w_active w) /\
+    forall j, j <> k -> (j < length (w_shards w))%nat -> afind h (status' j) = None.
+Proof. exact ripe_world_becomes_clean. Qed.
+Print Assumptions C03_ripe_world_becomes_clean.
 
 (* ... and a round of scrapes is what makes every copy eligible for that step: n scrapes of everything a sidecar is
    assigned add n to every counter (failed scrapes count as well) and change no state *)
